@@ -92,7 +92,7 @@ def cuts_for(n, tier, marks=()):
     """ways of cutting a stream of n bytes into reads: lists of chunk sizes.  quick tier: the fixed sizes and every two-read cut within 2 bytes of
     a block border (`marks`); thorough tier: every two-read cut and a lattice of three-read cuts"""
     out = [[n]]
-    for size in ((1, 3, 7, 19, 20, 21, 41, 100) if tier != 'thorough' else (1, 2, 3, 7, 19, 20, 21, 39, 41, 100)):
+    for size in ((1, 3, 7, 10, 19, 20, 21, 41, 100) if tier != 'thorough' else (1, 2, 3, 7, 10, 19, 20, 21, 39, 41, 100)):
         if size < n and (tier == 'thorough' or n <= 140 or size >= 19):
             out.append([size] * (n // size) + ([n % size] if n % size else []))
     if tier == 'thorough':
@@ -142,6 +142,8 @@ def streams(tier):
     out.append(('clean', [N('x' * 130), P]))
     out.append(('clean', [N('x' * 260 + 'a'), P, P]))
     out.append(('clean', [N('x' * 700)]))
+    out.append(('clean', [N(('x' * 9 + 'a') * 40)]))          # every 10-byte read ends in AA
+    out.append(('clean', [N(('x' * 19 + 'a') * 25), P]))
     out.append(('dirty', [N(('au' + 'x' * 11) * 40), P, P]))
     for w in dirty:
         out.append(('dirty', [N(w), P, P]))
